@@ -946,3 +946,105 @@ func c14DeferredCellStores(fv *ssa.FreeVar, cell *ssa.Alloc) []*ssa.Store {
 	}
 	return out
 }
+
+// Weights: over the paths of the view from the start points to an exit (loop
+// back edges removed), the maximum and minimum total weight of the
+// instructions executed.  Calls that are expanded weigh nothing themselves.
+func (v *c14View) Weights(starts []c14Pt, weight func(ssa.Instruction) int) (max, min int) {
+	back := map[*ssa.Function]map[Edge]bool{}
+	backOf := func(f *ssa.Function) map[Edge]bool {
+		if m, ok := back[f]; ok {
+			return m
+		}
+		m := map[Edge]bool{}
+		for _, l := range Loops(f) {
+			for _, e := range l.Backs {
+				m[e] = true
+			}
+		}
+		back[f] = m
+		return m
+	}
+	type mm struct{ max, min int }
+	type key struct {
+		ctx *c14Ctx
+		b   *ssa.BasicBlock
+		i   int
+	}
+	memo := map[key]mm{}
+	onStack := map[key]bool{}
+	var rec func(pt c14Pt) mm
+	rec = func(pt c14Pt) mm {
+		k := key{pt.ctx, pt.b, pt.i}
+		if r, ok := memo[k]; ok {
+			return r
+		}
+		if onStack[k] {
+			return mm{}
+		}
+		onStack[k] = true
+		defer delete(onStack, k)
+		w := 0
+		b := pt.b
+		for i := pt.i; i < len(b.Instrs); i++ {
+			in := b.Instrs[i]
+			switch x := in.(type) {
+			case *ssa.Call:
+				if kctx := pt.ctx.kids[x]; kctx != nil {
+					r := rec(c14Pt{ctx: kctx, b: kctx.fn.Blocks[0]})
+					memo[k] = mm{w + r.max, w + r.min}
+					return memo[k]
+				}
+			case *ssa.Return:
+				if pt.ctx.parent == nil || pt.ctx.at != nil {
+					memo[k] = mm{w, w}
+					return memo[k]
+				}
+				s := pt.ctx.site.(*ssa.Call)
+				r := rec(c14Pt{ctx: pt.ctx.parent, b: s.Block(), i: instrIndex(s) + 1})
+				memo[k] = mm{w + r.max, w + r.min}
+				return memo[k]
+			case *ssa.Panic:
+				memo[k] = mm{w, w}
+				return memo[k]
+			}
+			w += weight(in)
+		}
+		best, least, n := 0, 0, 0
+		only := v.constBranch(pt.ctx, b)
+		for i, s := range b.Succs {
+			if backOf(b.Parent())[Edge{b, s}] || (only >= 0 && i != only) {
+				continue
+			}
+			r := rec(c14Pt{ctx: pt.ctx, b: s})
+			if r.max < 0 {
+				continue // no exit that way (only loop back edges)
+			}
+			if n == 0 || r.max > best {
+				best = r.max
+			}
+			if n == 0 || r.min < least {
+				least = r.min
+			}
+			n++
+		}
+		if n == 0 && len(b.Succs) > 0 {
+			memo[k] = mm{-1 << 30, 1 << 30}
+			return memo[k]
+		}
+		memo[k] = mm{w + best, w + least}
+		return memo[k]
+	}
+	first := true
+	for _, s := range starts {
+		r := rec(s)
+		if first || r.max > max {
+			max = r.max
+		}
+		if first || r.min < min {
+			min = r.min
+		}
+		first = false
+	}
+	return
+}
